@@ -14,7 +14,7 @@ import warnings
 import pywbem
 from pywbem import (CIMInstanceName, CIMClassName, CIMDateTime, Uint8, Uint16,
                     Uint32, Uint64, Sint8, Sint16, Sint32, Sint64, Real32,
-                    Real64)
+                    Real64, Char16)
 from pywbem._cim_http import get_cimobject_header
 
 DT_TEXT = "20140922104920.524789+120"
@@ -38,7 +38,7 @@ DIGIT_TOKS = ["N0", "N1", "N5", "N127", "N128", "N255", "N32767", "N32768",
               "N18446744073709551615"]
 PUNCT = {"sl": "/", "col": ":", "dot": ".", "eq": "=", "com": ",", "dq": '"',
          "sq": "'", "bs": "\\", "lf": "\n", "sp": " ", "mi": "-", "lb": "[",
-         "rb": "]", "at": "@"}
+         "rb": "]", "at": "@", "pz": "%25"}
 WORDS = {"T": "true", "F": "false", "INF": "inf", "NAN": "nan"}
 LEX = {"ex": "e+20", "ex2": "e-07"}
 A_LETTERS = "ghkmp"          # never b e x i n f t r u : no literal can form
@@ -46,7 +46,7 @@ B_LETTERS = "qsvwyz"         # and every a-letter sorts before every b-letter
 HEX_LETTERS = "acdf"         # hex letter of IP literal hosts (not b, e: no
 #                              binary / exponent literal can form); sorts
 #                              before every a-letter
-OTHERS = "()*#%~!;<>?^{}&$"
+OTHERS = "()*#~!;<>?^{}&$"      # (not '%': "pz" is the lexeme %25)
 INT_TYPES = {"uint8": Uint8, "uint16": Uint16, "uint32": Uint32,
              "uint64": Uint64, "sint8": Sint8, "sint16": Sint16,
              "sint32": Sint32, "sint64": Sint64}
@@ -144,7 +144,7 @@ def _tokenizer(dts):
         _TOKENIZERS[dts] = re.compile(
             "".join("(?P<%s>%s)|" % (k, re.escape(t))
                     for k, t in zip(sorted(DT_POOLS), dts)) +
-            r"(?P<ex>e\+20)|(?P<ex2>e-07)|(?P<T>true)|(?P<F>false)|"
+            r"(?P<pz>%25)|(?P<ex>e\+20)|(?P<ex2>e-07)|(?P<T>true)|(?P<F>false)|"
             r"(?P<INF>inf)|(?P<NAN>nan)|(?P<num>[0-9]+)|(?P<c>.)",
             re.I | re.S)
     return _TOKENIZERS[dts]
@@ -161,8 +161,11 @@ def lit_text(syms):
 
 def conc_value(cm, v):
     t = v["t"]
-    if t in ("string", "char16"):
+    if t == "string":
         return cm.text(v["s"])
+    if t == "char16":
+        # a char16-TYPED key value (1-character strings are plain str keys)
+        return Char16(cm.text(v["s"]))
     if t == "boolean":
         return v["s"] == ["T"]
     if t == "int":
@@ -394,34 +397,109 @@ def _first_ref(obj):
 
 
 def _mutate_real(cm, newvals, obj, d, f):
-    """obj.<first reference> ... (d times) .<field f> = <new value>;
-    returns False if the place does not exist in the real object"""
+    """the caller's modification `f` (effect[.route], see MutFields of
+    WbemUriHeap) of obj.<first reference> ... (d times); returns a
+    description of the python statement, or None if the place does not exist
+    in the real object"""
     tgt = obj
     for _ in range(d):
         tgt = _first_ref(tgt)
         if tgt is None:
-            return False
+            return None
+    eff, _, route = f.partition(".")
     if f == "ns":
         tgt.namespace = cm.text(newvals["ns"])
-    elif f == "host":
+        return ".namespace = %r" % tgt.namespace
+    if f == "host":
         tgt.host = cm.text(newvals["host"])
-    elif f == "cls":
+        return ".host = %r" % tgt.host
+    if f == "cls":
         tgt.classname = cm.text(newvals["cls"])
-    elif f == "kbset":
-        if not isinstance(tgt, CIMInstanceName):
-            return False
-        for k, v in tgt.keybindings.items():
-            if not isinstance(v, CIMInstanceName):
-                tgt.keybindings[k] = cm.text(newvals["str"])
-                return True
-        return False
-    elif f == "kbadd":
-        if not isinstance(tgt, CIMInstanceName):
-            return False
-        tgt.keybindings[cm.text(newvals["key"])] = cm.text(newvals["str"])
+        return ".classname = %r" % tgt.classname
+    if not isinstance(tgt, CIMInstanceName):
+        return None
+    newkey, newstr = cm.text(newvals["key"]), cm.text(newvals["str"])
+    if f == "kbrepl":
+        tgt.keybindings = {newkey: newstr}
+        return ".keybindings = {%r: %r}" % (newkey, newstr)
+    if eff in ("kbset", "kbdel"):
+        plain = [k for k, v in tgt.keybindings.items()
+                 if not isinstance(v, CIMInstanceName)]
+        if not plain or (eff == "kbdel" and len(tgt.keybindings) < 2):
+            return None
+        key = plain[0]
+    elif eff == "kbadd":
+        key = newkey
     else:
-        return False
-    return True
+        return None
+    if eff == "kbdel":
+        if route == "item":
+            del tgt[key]
+            return " : del <path>[%r]" % key
+        if route == "dict":
+            del tgt.keybindings[key]
+            return " : del <path>.keybindings[%r]" % key
+        return None
+    if route == "item":
+        tgt[key] = newstr
+        return "[%r] = %r" % (key, newstr)
+    if route == "dict":
+        tgt.keybindings[key] = newstr
+        return ".keybindings[%r] = %r" % (key, newstr)
+    if route == "update":
+        tgt.keybindings.update({key: newstr})
+        return ".keybindings.update({%r: %r})" % (key, newstr)
+    return None
+
+
+OBS_FMTS = ["standard", "historical", "canonical"]
+
+
+def observe(cm, rng, obj, h, fmt):
+    """event hobs: obj (handle h) is printed, the text parsed; for the
+    canonical format a NEW equal path (other case / key order, built from
+    the projection of obj) is printed too"""
+    ev = {"kind": "hobs", "h": h, "fmt": fmt, "printed": "ok", "text": [],
+          "outcome": "", "q": NOPATH, "eq": False, "p2": NOPATH,
+          "same": True}
+    inf = {"call": "observe h%d" % h}
+    try:
+        uri, how = do_print(obj, fmt, rng)
+    except Exception as e:  # noqa
+        ev["printed"] = "PrintError:%s" % type(e).__name__
+        inf["exc"] = str(e)[:200]
+        return ev, inf
+    inf["call"] = "observe h%d.%s -> %r" % (h, how, uri)
+    ev["text"] = cm.project(uri)
+    try:
+        back = type(obj).from_wbem_uri(uri)
+    except Exception as e:  # noqa
+        ev["outcome"] = classify_exc(e)
+        inf["exc"] = "%s: %s" % (type(e).__name__, str(e)[:200])
+        back = None
+    if back is not None:
+        ev["outcome"] = "path"
+        ev["q"] = project(cm, back)
+        try:
+            ev["eq"] = bool(back == obj)
+        except Exception:  # noqa
+            ev["eq"] = False
+        inf["back"] = repr(back)
+    if fmt == "canonical":
+        try:
+            p2 = vary(rng, project(cm, obj), widths=False, prob=0.6)
+            o2 = concretize(cm, p2)
+        except Exception:  # noqa  (unclassified value: no twin, no verdict)
+            return ev, inf
+        ev["p2"] = p2
+        try:
+            u2 = o2.to_wbem_uri("canonical")
+        except Exception as e:  # noqa
+            u2 = "%s: %s" % (type(e).__name__, e)
+        ev["same"] = bool(u2 == uri)
+        inf["twin"] = repr(o2)
+        inf["twin_uri"] = u2
+    return ev, inf
 
 
 def history_events(rng, texts, newvals, steps, uniq):
@@ -491,12 +569,19 @@ def history_events(rng, texts, newvals, steps, uniq):
                 emit(ev, call="h%d = %s.from_wbem_uri(%r)" %
                      (len(handles), cls.__name__, uri), back=repr(back))
             elif kind == "mutate":
+                # observation of the object before and after the modification
+                for fmt in (OBS_FMTS if 1 <= n <= len(handles) else ()):
+                    oe, oi = observe(cm, rng, handles[n - 1], n, fmt)
+                    emit(oe, **oi)
                 ev = {"kind": "hmutate", "h": n, "d": d, "f": x, "heap": []}
-                done = 1 <= n <= len(handles) and \
-                    _mutate_real(cm, newvals, handles[n - 1], d, x)
+                done = _mutate_real(cm, newvals, handles[n - 1], d, x) \
+                    if 1 <= n <= len(handles) else None
                 ev["heap"] = snapshot()
-                emit(ev, call="h%d%s.%s = <new>" % (n, ".<ref>" * d, x),
-                     done=done)
+                emit(ev, call="h%d%s%s" % (n, ".<ref>" * d, done),
+                     done=done is not None)
+                for fmt in (OBS_FMTS if 1 <= n <= len(handles) else ()):
+                    oe, oi = observe(cm, rng, handles[n - 1], n, fmt)
+                    emit(oe, **oi)
             elif kind == "print":
                 ev = {"kind": "hprint", "h": n, "fmt": x, "printed": "ok",
                       "text": [], "pk": "none", "heap": []}
@@ -585,6 +670,8 @@ def probe_variant():
             "C", host="[FE80::1]", namespace="n").to_wbem_uri("canonical")
     flags["C07_HOSTNOHYPHEN"] = parses("//g-k.m/n:C.k=1") is None and \
         parses("//g.m/n:C.k=1") is not None
+    flags["C07_HOSTNOZONE"] = parses("//[fe80::1%25g]/n:C.k=1") is None and \
+        parses("//[fe80::1]/n:C.k=1") is not None
     flags["C07_NEEDSDOT"] = parses("C.k=1e+20") is None and \
         parses("C.k=1e-07") is None
     flags["C07_EXPMINUS"] = parses("C.k=1.5e+20") is None and \
@@ -599,6 +686,16 @@ def probe_variant():
         isinstance(r1.keybindings["k"], CIMDateTime) and \
         all(r is not None and isinstance(r.keybindings["k"], str)
             for r in r2)
+    with warnings.catch_warnings():
+        warnings.simplefilter("ignore")
+        flags["C07_CHAR16SQ"] = CIMInstanceName(
+            "C", {"k": Char16("x")}).to_wbem_uri() == "/:C.k='x'"
+        # canonical text cached in the object, not cleared by a change made
+        # through the keybindings dictionary
+        p = CIMInstanceName("C", {"k": 77002})
+        u1 = p.to_wbem_uri("canonical")
+        p.keybindings["k"] = 77003
+        flags["C07_PCACHE"] = p.to_wbem_uri("canonical") == u1
     # results shared between calls (a cache): identity of two results
     r1, r2 = parses('C.k="/:D.x=77001"'), parses('C.k="/:D.x=77001"')
     flags["C07_CACHEALL"] = r1 is not None and r1 is r2
